@@ -178,18 +178,24 @@ class Sandbox:
         Returns:
             :py:class:`pedal.sandbox.sandbox.Sandbox`
         """
+        patch_depth, stdout_depth = len(self._current_patches), len(self._current_stdout)
         try:
             return timeout(self.allowed_time, self._execute,
                            code, filename, kind, False, **meta)
         except TimeoutError as timeout_exception:
             _verif_sync('caller_timeout_handler')
             # The abandoned thread will not clean up after itself (see _execute), so the
-            # caller undoes the patches and keeps whatever was printed so far.
-            self._stop_patches()
-            if self._current_stdout:
+            # caller undoes the patches and keeps whatever was printed so far: everything
+            # that was pushed since this execution began (it may have started further
+            # executions inside itself), and nothing of what was there before.
+            while len(self._current_patches) > patch_depth:
+                self._stop_patches()
+            recent_context = len(self._context) - 1
+            while len(self._current_stdout) > stdout_depth:
                 current_stdout = self._current_stdout.pop()
-                if self._context:
-                    self.append_output(current_stdout.getvalue(), self._context[-1])
+                if recent_context >= 0:
+                    self.append_output(current_stdout.getvalue(), self._context[recent_context])
+                    recent_context -= 1
             self._capture_exception(timeout_exception, sys.exc_info(),
                                     code, filename)
             # The abandoned thread recorded its context but will never count it
